@@ -70,7 +70,7 @@ func runC02(c *Ctx) {
 	gnmiDispatch(c, a, "C02.dispatch")
 	c.Rule("C02.del-honoured", "in ctree.internalDelete the leaf arm calls f and reports deletion only on the true edge of condition(value)")
 
-	nParam := ssa.Value(a.gnmiUpdate.Params[1])
+	nParam := ssa.Value(param(a.gnmiUpdate, 1))
 	updatesWithN := func(p *Path) bool {
 		i := p.Index(0, isLeafUpdate)
 		return i >= 0 && len(p.Trace[i].Args) >= 2 && p.Trace[i].Args[1].V == nParam
@@ -202,7 +202,7 @@ func deleteHonoursCondition(c *Ctx, rule string) {
 		c.Unresolved(rule, "ctree.(*Tree).internalDelete parameters (subpath, condition, f, …)")
 		return
 	}
-	condP, fP := ssa.Value(id.Params[2]), ssa.Value(id.Params[3])
+	condP, fP := ssa.Value(param(id, 2)), ssa.Value(param(id, 3))
 	isCond := func(ev *Ev) bool { return strings.HasPrefix(ev.Label, "call:dyn:") && ev.Fn.V == condP }
 	isF := func(ev *Ev) bool { return strings.HasPrefix(ev.Label, "call:dyn:") && ev.Fn.V == fP }
 	n := 0
